@@ -15,7 +15,7 @@ EXPLANATION = (
 
 
 def check(ctx, run):
-    run.rules_run = ['R04.1', 'R04.2', 'R04.3', 'R04.4', 'R04.5', 'R04.6', 'R04.7', 'R05.14']
+    run.rules_run = ['R04.1', 'R04.2', 'R04.3', 'R04.4', 'R04.5', 'R04.6', 'R04.7', 'R04.8', 'R05.14']
     ordering.r04_1(ctx, run)
     ordering.r04_2(ctx, run)
     ordering.r04_2b(ctx, run)
@@ -28,6 +28,8 @@ def check(ctx, run):
     walkers.w_advance(ctx, run, 'R04.5/R05.2', only=only, floor=4)
     walkers.w_pair(ctx, run, 'R04.5/R05.14', only=only, floor=8)
     ordering.r04_6(ctx, run)
+    ordering.r04_8(ctx, run)
+    run.floor('R04.8', 'updates of one operand\'s offsets / cursors', run.counts.get('side_updates', 0), 10)
     from rules import layout as _layout
     _layout.r01_2(ctx, run, rule='R04.7/R01.2')
     return report.finish(run, level='other', explanation=EXPLANATION, assumptions=["A1: valid documents", "ordered-float contract for f64"])
